@@ -16,6 +16,7 @@ import NucsProofs.Examples.Tsp
 import NucsProofs.Examples.Golomb
 import NucsProofs.Examples.GolombSym
 import NucsProofs.Examples.GolombConsSound
+import NucsProofs.Engine.GolombConsOk
 import NucsProofs.Examples.Quasigroup
 import NucsProofs.Examples.Sports
 import NucsProofs.Examples.Counts
@@ -54,6 +55,10 @@ import NucsProofs.Examples.Counts
   `golombPrune`, `golombPass`; tied to the code by harness/golomb_corr.py) and its pruning is proved SOUND for every number of
   marks, state and decision list: `C20_golomb_prune_sound` (a solution inside the box stays inside; no spurious failure).  The
   proof is the argument the pinned code violated twice (D15: bounds lowered; D17: lower bounds of open variables counted as used).
+  It is a THIRD consistency algorithm of the engine model (`ConsAlg.golomb`): `consOk_golomb`, `consKeeps_golomb` give it the two
+  contracts the generic search theorems ask for, hence `C20_golomb_own_enumeration` / `C20_golomb_own_optimum`: whenever the
+  Golomb example RUN WITH ITS OWN ALGORITHM returns, enumeration returns each solution once and optimisation an optimum
+  (partial correctness; termination would need a counting fact about rulers that is validated, not proved).
   and for the Schur model for every n (`C20_schurLemma_sb_iff`: the flag adds one lexicographic comparison of the first ⌊3n/2⌋
   variables with the rest; `C20_schurLemma_sb_preserves`, `C20_schurLemma_sb_sat_iff`: a renaming of the colours makes its first
   comparison 0 < 1; SchurSym.lean).
